@@ -14,7 +14,7 @@ PROPERTY = "C13"
 RULE = (
     'case kinds: (poly) num_locs in {1,2,3,5,10,20,32,40} x mean/variance regime x batch shape x distribution type (torch Normal, MVN with dense '
     '/ diagonal lazy covariance, same object integrated twice); (lik) likelihood in {Laplace, StudentT, Beta, Bernoulli} x num_locs x batch x '
-    '{ordinary, outlying observations}; (bernoulli) marginal; (logcdf) grid chunk; distinct = cell without seed; non-trivial iff variance>0 '
+    '{ordinary, outlying observations}; (bernoulli) marginal; (softmax) points x features x classes x mixing x batch incl. points==features; (logcdf) grid chunk; distinct = cell without seed; non-trivial iff variance>0 '
     '(always) and degree>=1'
 )
 REQUIRED = ["poly_exact", "poly_degree_2n_not_exact", "dist_not_mutated", "lik_expected_log_prob", "lik_log_marginal", "bernoulli_marginal", "conditional_params", "log_normal_cdf", "log_normal_cdf_grad", "truncation_error_shrinks"]
@@ -44,6 +44,11 @@ def cases(tier, seed):
             yield {"kind": "bernoulli", "batch": b, "seed": rnd.randrange(10**6)}
         yield {"kind": "truncation", "lik": "laplace", "seed": rnd.randrange(10**6)}
         yield {"kind": "truncation", "lik": "studentt", "seed": rnd.randrange(10**6)}
+        # softmax: conditional = Categorical(softmax(W f)) in the documented (points x features) layout, whatever sizes coincide
+        for n, f, c, mix, b in itertools.product([1, 3, 4], [3, 4], [2, 4], [True, False], [[], [2]]):
+            if not mix and c != f:
+                continue
+            yield {"kind": "softmax", "n": n, "f": f, "c": c, "mix": mix, "batch": b, "seed": rnd.randrange(10**6)}
     nchunks = 4 if tier == "quick" else 40
     for c in range(nchunks):
         yield {"kind": "logcdf", "chunk": c, "nchunks": nchunks, "seed": rnd.randrange(10**6)}
@@ -114,7 +119,7 @@ def run_case(case, ctx):
     from vf import util
 
     g = util.gen(case["seed"])
-    return {"poly": _poly, "lik": _lik, "bernoulli": _bern, "logcdf": _logcdf, "truncation": _trunc}[case["kind"]](case, ctx, g)
+    return {"poly": _poly, "lik": _lik, "bernoulli": _bern, "logcdf": _logcdf, "truncation": _trunc, "softmax": _softmax}[case["kind"]](case, ctx, g)
 
 
 def _mv(case, g, shape):
@@ -410,6 +415,58 @@ def _bern(case, ctx, g):
     with torch.no_grad():
         lm = lik.log_marginal(y, MVN(m, C))
     ctx.close("bernoulli_marginal", lm, torch.where(y > 0.5, ref.log(), (1 - ref).log()), (1e-10, 1e-10), cls="bernoulli:log_marginal")
+    ctx.cell({k_: v_ for k_, v_ in case.items() if k_ != "seed"})
+
+
+def _softmax(case, ctx, g):
+    """SoftmaxLikelihood: p(y | f) = Categorical(softmax(W f)) with f the (points x features) latent values (docstring); the
+    marginal is the average over draws of f, here replayed with the same generator state."""
+    import warnings
+
+    import torch
+
+    import gpytorch
+    from gpytorch.distributions import MultitaskMultivariateNormal as MT, MultivariateNormal as MVN
+    from vf import util
+
+    n, f, c, b = case["n"], case["f"], case["c"], case["batch"]
+    lik = gpytorch.likelihoods.SoftmaxLikelihood(num_features=f, num_classes=c, mixing_weights=case["mix"]).double()
+    W = util.randn(g, c, f) if case["mix"] else torch.eye(f)
+    if case["mix"]:
+        lik.mixing_weights.data.copy_(W)
+    fs = util.randn(g, *b, n, f) * 1.5
+    with warnings.catch_warnings():
+        warnings.simplefilter("ignore")
+        with torch.no_grad():
+            out = lik.forward(fs)
+            out2 = lik(fs)
+    ref = torch.softmax(fs @ W.t(), -1)
+    cls = f"softmax:{'mix' if case['mix'] else 'identity'}:{'n==features' if n == f else 'n!=features'}"
+    ctx.close("conditional_params", out.probs, ref, (1e-12, 1e-12), cls=cls + ":forward")
+    ctx.close("conditional_params", out2.probs, ref, (1e-12, 1e-12), cls=cls + ":call")
+    # marginal over a multitask distribution: same draws -> same class probabilities
+    A = util.randn(g, *b, n * f, n * f) * 0.3
+    dist = MT(util.randn(g, *b, n, f), A @ A.transpose(-1, -2) + 0.1 * torch.eye(n * f))
+    y = torch.randint(0, c, (*b, n), generator=g)
+    with warnings.catch_warnings():
+        warnings.simplefilter("ignore")
+        # evaluation mode draws from the joint; training mode (documented for the objective) from the independent marginals
+        if case["seed"] % 2:
+            lik.eval()
+        with torch.no_grad(), gpytorch.settings.num_likelihood_samples(7):
+            torch.manual_seed(case["seed"])
+            mo = lik(dist)
+            torch.manual_seed(case["seed"])
+            elp = lik.expected_log_prob(y, dist)
+            torch.manual_seed(case["seed"])
+            if lik.training:
+                draws = torch.distributions.Normal(dist.mean, dist.variance.sqrt()).rsample(torch.Size([7]))
+            else:
+                draws = dist.rsample(torch.Size([7]))
+    refm = torch.softmax(draws @ W.t(), -1)
+    ctx.close("conditional_params", mo.probs, refm, (1e-12, 1e-12), cls=cls + ":marginal_draws")
+    refe = torch.log(torch.gather(refm, -1, y.expand(7, *y.shape).unsqueeze(-1)).squeeze(-1)).mean(0)
+    ctx.close("lik_expected_log_prob", elp, refe, (1e-10, 1e-10), cls=cls + ":expected_log_prob")
     ctx.cell({k_: v_ for k_, v_ in case.items() if k_ != "seed"})
 
 
